@@ -243,3 +243,66 @@ pub fn build_verifier<'t, G: AffineRepr>(
 pub fn proof_bytes<G: AffineRepr>(p: &R1CSProof<G>) -> Vec<u8> {
     p.to_bytes().expect("to_bytes on an in-memory proof")
 }
+
+/// Two live prover sessions on one thread; the seeded scheduler decides which
+/// session issues its next API call, and in which order the two `prove` calls
+/// run.  Returns the two results (proof bytes or error text) and the schedule.
+pub fn run_two_provers_interleaved<G: AffineRepr>(
+    a: (&Statement, &BulletproofGens<G>, u64),
+    b: (&Statement, &BulletproofGens<G>, u64),
+    sched_seed: u64,
+) -> Result<(Result<Vec<u8>, String>, Result<Vec<u8>, String>, String), String> {
+    use rand_core::RngCore;
+    let (pca, pcb) = (pc_gens_for::<G>(&a.0.bases), pc_gens_for::<G>(&b.0.bases));
+    let sha = Rc::new(RefCell::new(Shared::new(Role::Prover)));
+    let shb = Rc::new(RefCell::new(Shared::new(Role::Prover)));
+    let mut ta = Transcript::new(TLABELS[a.0.tlabel]);
+    let mut tb = Transcript::new(TLABELS[b.0.tlabel]);
+    for (l, d) in &a.0.pre {
+        ta.append_message(LABELS[*l], d);
+    }
+    for (l, d) in &b.0.pre {
+        tb.append_message(LABELS[*l], d);
+    }
+    let mut exta = CountingRng::new(a.2, RngMode::Normal);
+    let mut extb = CountingRng::new(b.2, RngMode::Normal);
+    let mut rng = rng_from_u64(sched_seed, "schedule");
+    let mut sched = String::new();
+    catch(|| {
+        let mut pa = Prover::new(&pca, &mut ta);
+        let mut pb = Prover::new(&pcb, &mut tb);
+        let (mut ia, mut ib) = (0usize, 0usize);
+        let (mut ca, mut cb) = (vec![], vec![]);
+        while ia < a.0.ops.len() || ib < b.0.ops.len() {
+            let pick_a = if ia >= a.0.ops.len() {
+                false
+            } else if ib >= b.0.ops.len() {
+                true
+            } else {
+                rng.next_u32() % 2 == 0
+            };
+            if pick_a {
+                step_prover(&mut pa, &a.0.ops[ia], &sha, &mut ca);
+                ia += 1;
+                sched.push('a');
+            } else {
+                step_prover(&mut pb, &b.0.ops[ib], &shb, &mut cb);
+                ib += 1;
+                sched.push('b');
+            }
+        }
+        let a_first = rng.next_u32() % 2 == 0;
+        sched.push_str(if a_first { "|AB" } else { "|BA" });
+        let f = |r: Result<R1CSProof<G>, R1CSError>| r.map(|p| proof_bytes(&p)).map_err(|e| format!("{:?}", e));
+        if a_first {
+            let ra = f(pa.prove(&mut exta, a.1));
+            let rb = f(pb.prove(&mut extb, b.1));
+            (ra, rb)
+        } else {
+            let rb = f(pb.prove(&mut extb, b.1));
+            let ra = f(pa.prove(&mut exta, a.1));
+            (ra, rb)
+        }
+    })
+    .map(|(ra, rb)| (ra, rb, sched.clone()))
+}
